@@ -43,6 +43,12 @@ def failAll (h : Pipe.Host) : List Nat → Pipe.Host
     | some h' => failAll h' ks
     | none => failAll h ks
 
+def repeatStep (h : Pipe.Host) (a : Pipe.Act) : Nat → Pipe.Host
+  | 0 => h
+  | n + 1 => match h.step a with
+    | some h' => repeatStep h' a n
+    | none => h
+
 def splitTok (t : String) : String × Option Nat :=
   let cs := t.toList
   let name := cs.takeWhile Char.isAlpha
@@ -58,7 +64,8 @@ def macroStep (h : Pipe.Host) (tok : String) : Option Pipe.Host :=
   | ("failR", some k) => (h.step (.fail k)).map (autoStop · fuel)
   | ("err", some k) => h.step (.err k)
   | ("pick", none) => if h.cur.isNone then none else h.step .pick
-  | ("burst", none) => if h.cur.isNone then none else h.step .pick   -- several triggers at once: one filler
+  | ("burst", none) =>   -- 32 fill() calls at once: all pass the first check, then take the write lock one by one
+      if h.cur.isNone then none else some (repeatStep (repeatStep h .fillCheck 32) .fillGo 32)
   | ("up", none) => h.step .up
   | ("down", none) => if h.cur.isNone then none else h.step .down
   | ("pclose", none) => if h.cur.isNone then none else h.step .pclose
